@@ -90,7 +90,9 @@ def sort_T(t):
         return {'k': t['k'], 'w': t['w'], 'items': sorted(items, key=lambda p: p[0]) if t['k'] == 'dict' else items}
     return t
 
-def find_paths(root, target, limit=8):
+PATH_LIMIT = 48
+
+def find_paths(root, target, limit=PATH_LIMIT):
     out = []
     def rec(x, path):
         if len(out) >= limit: return
@@ -369,6 +371,7 @@ def execute(env, attr, init, prog, created=False, source=None):
                 if op['var'] not in st['vars']: continue
                 x = st['vars'][op['var']]; y = st['mvars'][op['var']]
                 paths = find_paths(st['mirror'], y)
+                if len(paths) >= PATH_LIMIT: res.model_valid = False      # shared at too many places after repeated *=
             if o == 'call':
                 c = op
                 mm = model_mut(c, y)
@@ -383,7 +386,7 @@ def execute(env, attr, init, prog, created=False, source=None):
                     if rerr != merr: res.mirror_diffs.append({'at': idx, 'what': 'exception', 'real': rerr, 'mirror': merr})
                 if merr is not None and canon(y) != before_m:
                     res.partial = True; res.model_valid = False
-                if rerr is not None and rerr == merr and canon(rootval()) != canon(st['mirror']):
+                if rerr is not None and rerr == merr and (canon(rootval()) != canon(st['mirror']) or canon(x) != canon(y)):
                     # both raised, but the part of the change that happened before the exception differs (Pony converts the iterable
                     # first, plain Python consumes it while changing the list): not the property; the program ends here
                     res.stopped = True
